@@ -1,6 +1,7 @@
 import Driver.Loop
 import Driver.Codec
 import PyGqlModel.Validate.Chain
+import PyGqlModel.Validate.ChainMemo
 import PyGqlModel.Validate.WfIds
 import PyGqlModel.Validate.WfMeta
 import PyGqlModel.Validate.OverlapRank
@@ -64,7 +65,23 @@ def checksToJson (s : SchemaD) (schemaOk : Bool) (d : Doc) : J :=
   .obj [("ids", .bool (wfIdsB d)), ("meta", .bool (noMetaSubsB d)),
         ("rank", .bool (rankOkB s d (rankOf (computeRanks d)))),
         ("names", .bool ((Spec.fragNames d).all (· != ""))),
-        ("schema_outputs", .bool schemaOk)]
+        ("schema_outputs", .bool schemaOk),
+        -- hypothesis of `overlap_memo_terminates` (syntactic ranks: holds for every parsed document)
+        ("syn_rank", .bool (rankSynB s d (rankOf (synRanks d)) (maxRank (synRanks d))))]
+
+def optNat : Option Nat → J
+  | some n => J.ofNat n
+  | none => .null
+def optS : Option String → J
+  | some s => .str s
+  | none => .null
+
+/-- the answer of `runMemo`: the verdict, and both overlap counts for the cross-check memoised = un-memoised -/
+def memoToJson (a : MemoAnswer) : J :=
+  match outcomeToJson a.outcome with
+  | .obj kvs => .obj (kvs ++ [("memo", .obj [("supplied", .bool a.supplied), ("plain_crash", optS a.plainCrash),
+      ("plain_overlap", optNat a.plainOverlap), ("memo_overlap", optNat a.memoOverlap), ("memo_crash", optS a.memoCrash)])])
+  | j => j
 
 def withChecks (j c : J) : J :=
   match j with
@@ -84,7 +101,7 @@ def handle (j : J) : J :=
     let schemaOk := schemaOutputsB schema
     .arr ((j.arrD "docs").map fun d =>
       let doc := docOfJson (d.getD "doc")
-      withChecks (outcomeToJson (run { schema, fixes, rules := rulesOfJson d } doc)) (checksToJson schema schemaOk doc))
+      withChecks (memoToJson (runMemo { schema, fixes, rules := rulesOfJson d } doc)) (checksToJson schema schemaOk doc))
   | "rules" => J.ofStrs (Rule.all.map (·.name))
   | _ => .obj [("error", .str "bad-op")]
 
